@@ -1,4 +1,5 @@
 import QuillModel.Backend.ResumeProgress
+import QuillModel.Backend.PubInv
 import QuillModel.Props.C06
 /-!
 # C09 (end to end, backend model) — a blocked log call resumes; no stall on an empty queue
@@ -20,23 +21,28 @@ empty **and its reader position is published** (`rHist.headD 0`, the value a pro
 writer position), the retry is granted, the record is appended to what the queue accepted, and the call returns
 (`ret=1` for the macro that reports the outcome).
 
-One hypothesis concerns the model, not quill: `ReadsCommitted` for the caller's context at the start of the
-continuation. In quill every `_read_and_decode_frontend_queue` that read something ends with `commit_read`. The
-model's `readQueue` does too on every exit except exhaustion of its loop fuel (`| 0, _, s => s`), which a schedule can
-only reach by injecting, at hook site 3 of one single read, more than 63 records that are immediately eligible
-(`grace = 0`). `ReadsCommitted` excludes the states left behind by that exit: it says that a context with nothing
-left to read has its reader position published. It holds initially, is established by every completed read, and the
-continuation re-establishes it by itself whenever the queue still holds a record.
+Why the reader position is published at the start of the continuation, whatever `pre` did: every read of a queue ends
+with `commit_read` when it consumed something (all exits of `_read_and_decode_frontend_queue`), and with the drain rule
+that call publishes whenever nothing is left to read. `C09_reads_committed` states this as an invariant of every
+state between two operations of every schedule, with arbitrary frontend operations injected at every hook site
+(`Backend/PubInv.lean`; inside a poll the context being read is exempt until the `commit_read` that ends its read).
 -/
 namespace Backend
 open Backend.PB
+
+/-- **Every read ends committed.** For every schedule (polls with arbitrary injected frontend operations, the exit
+    drain) from a thread-free initial state, with the drain rule of `commit_read`: in the state after the schedule, a
+    context whose queue holds nothing to read has its reader position published — `rHist.headD 0` (the newest value a
+    producer reload can return) equals `rpos`. -/
+theorem C09_reads_committed (s0 : BSt) (h0 : Start s0) (hdp : s0.cfg.qp.drainPublish = true) (ops : List Op) (i : Nat) :
+    ReadsCommitted (runOps s0 ops) i :=
+  readsCommitted_runOps h0 hdp ops i
 
 /-- **The drain publishes.** After the continuation described above, the context of actor `a` holds nothing (transit
     buffer and queue empty) and the newest published reader position is the writer position: the producer's next
     reload sees the whole capacity free. -/
 theorem C09_drain_publishes (s0 : BSt) (h0 : StartF s0) (pre : List Op) (a : Nat) (x : Actor)
     (hdp : s0.cfg.qp.drainPublish = true) (hx : (runOps s0 pre).actor a = some x)
-    (hcom : ∀ i, x.ctx = some i → ReadsCommitted (runOps s0 pre) i)
     (hrun : (runOps s0 pre).backendGone = false) (dt : Nat) (hdt : s0.cfg.grace ≤ dt)
     (suffix : List Op) (hq : ∀ o ∈ suffix, quietOp o = true) (hn : pendingCount (runOps s0 pre) ≤ pollCount suffix)
     (i : Nat) (hi : x.ctx = some i) :
@@ -48,7 +54,7 @@ theorem C09_drain_publishes (s0 : BSt) (h0 : StartF s0) (pre : List Op) (a : Nat
   have hfi := (start_FI h0).runOps pre
   have hcfg := (start_GI h0.start).cfg_runOps pre
   obtain ⟨hpg, _, _, hall, hpub⟩ := drained_state hgi hfi hrun dt (by rw [hcfg]; exact hdt) suffix hq hn
-    (by rw [hcfg]; exact hdp) a x hx hcom
+    (by rw [hcfg]; exact hdp) a x hx (fun i _ => readsCommitted_runOps h0.start hdp pre i)
   have hc := hall i
   unfold chain at hc
   obtain ⟨hb, hqs⟩ := List.append_eq_nil_iff.mp hc
@@ -67,7 +73,6 @@ theorem C09_drain_publishes (s0 : BSt) (h0 : StartF s0) (pre : List Op) (a : Nat
 theorem C09_blocked_call_resumes (s0 : BSt) (h0 : StartF s0) (pre : List Op) (a : Nat) (x : Actor) (st : Stmt) (k : Nat)
     (hdp : s0.cfg.qp.drainPublish = true) (hblk : s0.cfg.dropping = false)
     (hx : (runOps s0 pre).actor a = some x) (hp : x.pend = .retry st k) (hsz : st.size ≤ s0.cfg.qcap)
-    (hcom : ∀ i, x.ctx = some i → ReadsCommitted (runOps s0 pre) i)
     (hrun : (runOps s0 pre).backendGone = false) (dt : Nat) (hdt : s0.cfg.grace ≤ dt)
     (suffix : List Op) (hq : ∀ o ∈ suffix, quietOp o = true) (hn : pendingCount (runOps s0 pre) ≤ pollCount suffix) :
     (runOps (runOps s0 pre) (.front (.tick dt) :: suffix)).actor a = some x ∧
@@ -83,7 +88,7 @@ theorem C09_blocked_call_resumes (s0 : BSt) (h0 : StartF s0) (pre : List Op) (a 
   have hfi := (start_FI h0).runOps pre
   have hcfg := (start_GI h0.start).cfg_runOps pre
   obtain ⟨hpg, hx2, hcfg2, hall, hpub⟩ := drained_state hgi hfi hrun dt (by rw [hcfg]; exact hdt) suffix hq hn
-    (by rw [hcfg]; exact hdp) a x hx hcom
+    (by rw [hcfg]; exact hdp) a x hx (fun i _ => readsCommitted_runOps h0.start hdp pre i)
   generalize runOps (runOps s0 pre) (.front (.tick dt) :: suffix) = s2 at hpg hx2 hcfg2 hall hpub ⊢
   obtain ⟨fl, hI⟩ := hpg.gi
   have hd : ∀ i, x.ctx = some i → (s2.th i).qStmts = [] ∧ Pub (s2.th i) := fun i hi =>
@@ -111,7 +116,6 @@ theorem C09_obs_ret1 (st : Stmt) : obsLog st 0 (some true) st.size = s!"id={st.i
     dropped one (`cont = 0`), and no failure counter moves (`C06`/`C04` count only refused attempts). -/
 theorem C09_call_after_drain_accepted (s0 : BSt) (h0 : StartF s0) (pre : List Op) (a : Nat) (x : Actor)
     (hdp : s0.cfg.qp.drainPublish = true) (hx : (runOps s0 pre).actor a = some x) (hst : x.stallArmed = false)
-    (hcom : ∀ i, x.ctx = some i → ReadsCommitted (runOps s0 pre) i)
     (hrun : (runOps s0 pre).backendGone = false) (dt : Nat) (hdt : s0.cfg.grace ≤ dt)
     (suffix : List Op) (hq : ∀ o ∈ suffix, quietOp o = true) (hn : pendingCount (runOps s0 pre) ≤ pollCount suffix)
     (lgi lvl len id : Nat) (dyn named : Bool) (k : Nat) (hk : k = 0 ∨ k = 5)
@@ -129,7 +133,7 @@ theorem C09_call_after_drain_accepted (s0 : BSt) (h0 : StartF s0) (pre : List Op
   have hfi := (start_FI h0).runOps pre
   have hcfg := (start_GI h0.start).cfg_runOps pre
   obtain ⟨hpg, hx2, hcfg2, hall, hpub⟩ := drained_state hgi hfi hrun dt (by rw [hcfg]; exact hdt) suffix hq hn
-    (by rw [hcfg]; exact hdp) a x hx hcom
+    (by rw [hcfg]; exact hdp) a x hx (fun i _ => readsCommitted_runOps h0.start hdp pre i)
   generalize runOps (runOps s0 pre) (.front (.tick dt) :: suffix) = s2 at hpg hx2 hcfg2 hall hpub hsz ⊢
   obtain ⟨fl, hI⟩ := hpg.gi
   have hd : ∀ i, x.ctx = some i → (s2.th i).qStmts = [] ∧ Pub (s2.th i) := fun i hi =>
@@ -196,20 +200,20 @@ example :
 def c09Block : List Op := [ .front (.tstart 1), .front (.log 1 0 4 10 true), .front (.log 1 0 4 972 true) ]
 
 /-- non-vacuity of `C09_blocked_call_resumes`: every hypothesis is met by `c09Block` on the blocking queue with the
-    drain rule (the caller is parked on the retry of a 1009-byte record, its context still holds an unread record, so
-    `ReadsCommitted` holds; one record is pending, so one quiet poll is enough), and the conclusion is what the model
+    drain rule (the caller is parked on the retry of a 1009-byte record; one record is pending, so one quiet poll is
+    enough), and the conclusion is what the model
     computes: after `tick 0, poll` the retry is accepted and the call returns `ret=1`. -/
 example :
     StartF (c09Init true) ∧ (c09Init true).cfg.qp.drainPublish = true ∧ (c09Init true).cfg.dropping = false ∧
     ((runOps (c09Init true) c09Block).actor 1).map (fun x => (x.pend matches .retry _ 0, x.ctx)) = some (true, some 0) ∧
     (∀ st k, ((runOps (c09Init true) c09Block).actor 1).map (·.pend) = some (.retry st k) → st.size ≤ (c09Init true).cfg.qcap) ∧
-    ReadsCommitted (runOps (c09Init true) c09Block) 0 ∧ (runOps (c09Init true) c09Block).backendGone = false ∧
+    (runOps (c09Init true) c09Block).backendGone = false ∧
     pendingCount (runOps (c09Init true) c09Block) ≤ pollCount [.poll []] ∧
     (applyOp (runOps (runOps (c09Init true) c09Block) [.front (.tick 0), .poll []]) (.front (.resume 1))).2 =
       "id=1 ret=1 ev=1 bytes=1009" ∧
     (runOps (runOps (c09Init true) c09Block) [.front (.tick 0), .poll [], .front (.resume 1)]).ths.map
       (fun t => t.accepted.map (·.size)) = [[47, 1009]] := by
-  refine ⟨c09Init_startF true, by decide, by decide, by decide, ?_, ?_, by decide, by decide, by decide, by decide⟩
+  refine ⟨c09Init_startF true, by decide, by decide, by decide, ?_, by decide, by decide, by decide, by decide⟩
   · intro st k h
     have : ((runOps (c09Init true) c09Block).actor 1).map (fun x => (match x.pend with | .retry st _ => st.size | _ => 0)) = some 1009 := by
       decide
@@ -222,9 +226,5 @@ example :
       have h2 : st.size = 1009 := this
       show st.size ≤ 1024
       omega
-  · intro h
-    exfalso
-    revert h
-    decide
 
 end Backend
